@@ -72,6 +72,18 @@ def o13_1(tier):
             ctx.ensure(ctx.Not(ctx.none_is(r)) and ctx.eq(r, ids[t1]), "id of the same physical vertex at the target frame, whatever the numbering")
         return h
     out += [("frames=3,0->2,symbolic-ids", mk_sym(3, 0, 2)), ("frames=3,2->0,symbolic-ids", mk_sym(3, 2, 0))]
+
+    def mk_history(queries):
+        def h(ctx):
+            # the answer is a function of the arguments, not of the queries made before on the same object
+            ids = [7, 3, 11, 5]
+            ts, pos, times = mk_series(ctx, 4, ids)
+            for t0, t1 in queries:
+                r = ctx.callm(ts, "get_point_id_by_map", ids[t0], t0, t1)
+                ctx.ensure(ctx.eq(r, ids[t1]), f"query {t0}->{t1} after {queries.index((t0, t1))} earlier queries on the same series")
+        return h
+    out += [("same-object,forward-then-backward", mk_history([(0, 3), (3, 0), (1, 2), (2, 1)])),
+            ("same-object,backward-then-forward", mk_history([(3, 1), (1, 3), (2, 3), (0, 1)]))]
     return out
 
 
@@ -110,8 +122,9 @@ def o13_2(tier):
     return out
 
 
-def mk_fmatrix(ctx, rows, cols, vid_rows, frame_id=1):
-    """a ForceMatrix whose constructor did not run: only the fields set_velocity_matrix reads"""
+def mk_fmatrix(ctx, rows, cols, vid_rows, frame_id=1, metadata=None):
+    """a ForceMatrix whose constructor did not run: only the fields set_velocity_matrix reads (metadata: the options dict
+    every ForceMatrix carries; ForSys.build_force_matrix hands the SAME default dict to every matrix it builds)"""
     FM = cls(ctx, "forsys.fmatrix", "ForceMatrix")
     F = cls(ctx, "forsys.frames", "Frame")
     np_ = ctx.module("numpy") if ctx.mode != "sym" else None
@@ -121,7 +134,7 @@ def mk_fmatrix(ctx, rows, cols, vid_rows, frame_id=1):
     else:
         mat = np_.zeros((rows, cols))
     fr = ctx.alloc(F, frame_id=frame_id)
-    return ctx.alloc(FM, matrix=mat, map_vid_to_row=ctx.dict(vid_rows), frame=fr)
+    return ctx.alloc(FM, matrix=mat, map_vid_to_row=ctx.dict(vid_rows), frame=fr, metadata=ctx.dict() if metadata is None else metadata)
 
 
 @obligation("O13.3", ["C13", "C03", "C06"], UNITS[2:3],
@@ -182,4 +195,32 @@ def o13_3(tier):
         for adim in (False, True):
             out.append((f"{name},adim={adim}", mk(layout, adim, "velocity")))
     out.append(("static", mk([(9, 2), (4, 0)], True, None)))
+
+    def h_history(ctx):
+        # two matrices of frames with the same id (two analyses in one session) sharing the options dict, as build_force_matrix's
+        # default argument makes them: the second right-hand side is a function of ITS velocities only
+        layout = [(9, 2), (4, 0)]
+        shared = ctx.dict()
+        T = cls(ctx, "forsys.time_series", "TimeSeries")
+        res = []
+        for run in (0, 1):
+            vel = {vid: (ctx.real(f"r{run}vx{vid}"), ctx.real(f"r{run}vy{vid}")) for vid, _ in layout}
+            np_ = ctx.module("numpy") if ctx.mode != "sym" else None
+
+            def cv(it, a, k, vel=vel):
+                vid = a[1] if len(a) > 2 else a[0]
+                if np_ is not None:
+                    return np_.array(vel[vid])
+                from fvc import npmodel
+                return npmodel.NDArr(list(vel[vid]), (2,))
+            ctx.stub("forsys.time_series:TimeSeries.calculate_velocity", cv, "callee contract proved as O13.2")
+            if ctx.mode != "sym":
+                ctx.apply_stubs = True
+                ctx.stub("forsys.time_series:TimeSeries.calculate_velocity", cv)
+            ctx.assume(ctx.Not(ctx.And(*[ctx.And(ctx.zero(v[0]), ctx.zero(v[1])) for v in vel.values()])), "pre")
+            fm = mk_fmatrix(ctx, 6, 3, layout, metadata=shared)
+            b, avg = ctx.list_of(ctx.callm(fm, "set_velocity_matrix", ctx.alloc(T), b_matrix="velocity", adimensional_velocity=True))
+            speeds = [ctx.sqrt(v[0] * v[0] + v[1] * v[1]) for v in vel.values()]
+            ctx.ensure(ctx.close(avg, (speeds[0] + speeds[1]) / 2), f"analysis {run + 1}: normalised by the mean junction speed of ITS OWN velocities")
+    out.append(("two-analyses-sharing-the-options-dict", h_history))
     return out
